@@ -291,6 +291,9 @@ def const_test(e, consts):
         return e.value
     if isinstance(e, ast.Name):
         return consts[e.id] if e.id in consts else _UNDEC
+    if isinstance(e, ast.Attribute):
+        k = src(e)
+        return consts[k] if k in consts else _UNDEC
     if isinstance(e, ast.UnaryOp) and isinstance(e.op, ast.Not):
         v = const_test(e.operand, consts)
         return _UNDEC if v is _UNDEC else (not v)
@@ -549,7 +552,11 @@ def access_path(e, tables):
             cur = cur.value
         else:
             break
-    if not (isinstance(cur, ast.Name) and cur.id in tables):
+    if isinstance(cur, ast.Name) and cur.id in tables:
+        tname = cur.id
+    elif isinstance(cur, ast.Attribute) and src(cur) in tables:
+        tname = src(cur)
+    else:
         return None
     chain.reverse()
     col = row = None
@@ -583,7 +590,7 @@ def access_path(e, tables):
             # further indexing of a selected element (component selection): ignore slices, refuse others
             if not all(is_full_slice(i) for i in idx):
                 return None
-    return Access(cur.id, col, row)
+    return Access(tname, col, row)
 
 
 def prune(body, consts):
